@@ -207,6 +207,13 @@ func c12RunProg(method string, extra []string, acts []c12Act, panics bool, real 
 		if inflightIn < 0 {
 			inflightIn = int(gm.Gauge.GetValue())
 		}
+		if c12HijackFails {
+			// a handler that first tries to take over the connection, fails, and falls back to an ordinary
+			// response: the failed Hijack must be without effect (the model sees only the actions below)
+			if hj, ok := w.(http.Hijacker); ok {
+				hj.Hijack()
+			}
+		}
 		for _, a := range acts {
 			switch a.kind {
 			case 0:
@@ -451,7 +458,13 @@ func runC12(c *cli.Ctx) error {
 		if r.Chance(1, 4) {
 			combo = 31
 		}
+		c12HijackFails = !real && r.Chance(1, 4)
+		if c12HijackFails {
+			combo |= 4 // the fake writer offers Hijacker
+		}
 		res, err := c12RunProg(m, extra, acts, panics, real, combo)
+		hijackFirst := c12HijackFails
+		c12HijackFails = false
 		if err != nil {
 			return err
 		}
@@ -462,6 +475,9 @@ func runC12(c *cli.Ctx) error {
 		impl := emit.Tup(emit.S(res.code), emit.S(res.method), emit.I(res.count), emit.Z(res.bytes), emit.I(res.inflightAfter), emit.I(res.inflightIn),
 			emit.SL(res.ttwh), emit.I(res.peer), emit.B(res.identical), emit.I(res.durCount))
 		tags := []string{fmt.Sprintf("real-server:%v", real), fmt.Sprintf("panics:%v", panics), fmt.Sprintf("acts:%d", len(acts))}
+		if hijackFirst {
+			tags = append(tags, "failed-hijack-first")
+		}
 		for _, a := range acts {
 			if a.kind == 0 && a.a >= 100 && a.a <= 199 && a.a != 101 {
 				tags = append(tags, "has-1xx")
